@@ -379,8 +379,8 @@ class P(Prop):
             s = sim(case)
             return bool(s) and s[0][0] == "ok"
         if case["kind"] == "hist":
-            return any(op[0] in ("call", "tc") for op in case["ops"][:-1]) or (
-                bool(case["ops"]) and case["ops"][-1][0] in ("call", "tc") and not H.static(case).dead)
+            return any(op[0] in ("call", "tc", "tif") for op in case["ops"][:-1]) or (
+                bool(case["ops"]) and case["ops"][-1][0] in ("call", "tc", "tif") and not H.static(case).dead)
         return True
 
     # ---------------------------------------------------------------- implementation
